@@ -11,12 +11,14 @@ for arg in sys.argv[1:]:
     m = re.match(r"(C\d+)(.*)", arg)
     pid, tag = m.group(1), m.group(2)
     base = "/tmp/seed_%s%s" % (pid, tag)
+    keep = False
     for out in sorted(glob.glob(base + "/out/m*")):
         name = "%s-%s%s" % (pid, tag, os.path.basename(out))
         r = subprocess.run(["python3", os.path.join(V, "tools/confirm_seed.py"), out, base + "/repo"], capture_output=True, text=True)
         ok = r.returncode == 0
         print("confirm %s: %s %s" % (name, "OK" if ok else "NOT CONFIRMED", (r.stdout.strip().splitlines() or [r.stderr[-300:]])[-1][:250]), flush=True)
         if not ok:
+            keep = True
             continue
         d = os.path.join(V, "seeded", name)
         os.makedirs(d, exist_ok=True)
@@ -28,6 +30,9 @@ for arg in sys.argv[1:]:
                                      "base_commit": head}
         json.dump(meta, open(os.path.join(d, "meta.json"), "w"), indent=1)
         stored.append(name)
+    if keep:
+        print("kept %s (something was not confirmed: look at it by hand)" % base)
+        continue
     subprocess.run(["git", "-C", "/repo", "worktree", "remove", "--force", base + "/repo"], capture_output=True)
     shutil.rmtree(base, ignore_errors=True)
 subprocess.run(["git", "-C", "/repo", "worktree", "prune"])
